@@ -36,6 +36,12 @@ interface render {
   paint: func(c: borrow<canvas>, s: shape, col: color) -> tuple<u8, u8>;
   fresh: func() -> canvas;
 }
+interface i0 { type t = u32; resource r { constructor(); } }
+interface i1 { use i0.{t, r}; f1: func(x: t, y: borrow<r>); }
+interface i2 { use i1.{t, r}; f2: func(x: t) -> r; }
+interface i3 { use i2.{t, r}; f3: func(x: list<t>, y: r); }
+interface i4 { use i3.{t as tt, r as rr}; f4: func(x: tt, y: borrow<rr>); }
+world chain { import i4; export go: func(); }
 world producer { export shapes; }
 world consumer { import shapes; export render; }
 world app { import render; import shapes; import log: func(msg: string, level: u8); export run: func() -> result<_, string>; export ping: func(a: u8, b: list<string>) -> option<u8>; }
@@ -85,7 +91,7 @@ fn main() {
     let shaped = vec![
         wat::parse_str(r#"(component (import "w" (component (import "i" (func (param "p" u8))) (export "e" (instance (export "g" (func (result string))))))) (import "mod" (core module (import "a" "b" (func)) (export "c" (func)))) (import "t" (type (sub resource))) (import "n" (instance (export "deep" (instance (export "h" (func (param "x" (list u8)) (param "y" bool))))))) (core module $m (func (export "f"))) (core instance $i (instantiate $m)) (func $f (canon lift (core func $i "f"))) (export "z-first" (func $f)) (export "a-second" (func $f)))"#).unwrap(),
     ];
-    let mut lib: Vec<(String, Vec<u8>)> = vec![("t:producer".into(), component("producer")), ("t:consumer".into(), component("consumer")), ("t:app".into(), component("app"))];
+    let mut lib: Vec<(String, Vec<u8>)> = vec![("t:producer".into(), component("producer")), ("t:consumer".into(), component("consumer")), ("t:app".into(), component("app")), ("t:chain".into(), component("chain"))];
     for (i, b) in shaped.iter().enumerate() { lib.push((format!("t:shaped{i}"), b.clone())); }
     let (mut items, mut wrappers) = (0u64, 0u64);
     let mut samples = vec![];
@@ -112,6 +118,17 @@ fn main() {
         if got_imp != imp || got_exp != exp { println!("C08-BOUNDED VIOLATION: package {name}: decoded imports {:?} exports {:?}; the component has imports {:?} exports {:?} (names, in order)", got_imp, got_exp, imp, exp); std::process::exit(1); }
         for (n, k) in &world.imports { match wt.component_entity_type_of_import(n) { Some(e) => match compare(&types, *k, &wt, &e, &format!("{name} import `{n}`")) { Ok(c) => items += c, Err(d) => { println!("C08-BOUNDED VIOLATION: {d}"); std::process::exit(1); } }, None => { println!("C08-BOUNDED VIOLATION: {name}: decoded import `{n}` is unknown to the validator"); std::process::exit(1); } } }
         for (n, k) in &world.exports { match wt.component_entity_type_of_export(n) { Some(e) => match compare(&types, *k, &wt, &e, &format!("{name} export `{n}`")) { Ok(c) => items += c, Err(d) => { println!("C08-BOUNDED VIOLATION: {d}"); std::process::exit(1); } }, None => { println!("C08-BOUNDED VIOLATION: {name}: decoded export `{n}` is unknown to the validator"); std::process::exit(1); } } }
+        // used-type provenance through a chain of `use`s: every used type of i1..i4 comes from the DEFINING interface i0
+        if name == "t:chain" {
+            for k in 1..=4 {
+                let iname = format!("lib:types/i{k}@1.0.0");
+                let Some(ItemKind::Instance(i)) = world.imports.get(&iname).copied() else { println!("C08-BOUNDED VIOLATION: {name}: import `{iname}` is not decoded as an instance"); std::process::exit(1) };
+                let got: Vec<(String, String, String)> = types[i].uses.iter().map(|(n, u)| (n.clone(), types[u.interface].id.clone().unwrap_or_default(), u.name.clone().unwrap_or_else(|| n.clone()))).collect();
+                let want: Vec<(String, String, String)> = if k < 4 { vec![("t".into(), "lib:types/i0@1.0.0".into(), "t".into()), ("r".into(), "lib:types/i0@1.0.0".into(), "r".into())] } else { vec![("tt".into(), "lib:types/i0@1.0.0".into(), "t".into()), ("rr".into(), "lib:types/i0@1.0.0".into(), "r".into())] };
+                if got != want { println!("C08-BOUNDED VIOLATION: {name}: used types of `{iname}` decoded as {:?}, the component's `use` chain gives {:?}", got, want); std::process::exit(1); }
+                items += 2;
+            }
+        }
         if samples.len() < 2 { samples.push(format!("{name}: imports {:?} exports {:?}", imp, exp)); }
     }
     // ---- (2) dependencies imported: the written component types are satisfied by the real components
@@ -119,6 +136,8 @@ fn main() {
         ("package test:doc;\nlet p = new t:producer { };\nexport p.shapes;\n", vec!["t:producer"]),
         ("package test:doc;\nlet p = new t:producer { };\nlet c = new t:consumer { shapes: p.shapes };\nexport p.shapes;\nexport c.render;\n", vec!["t:producer", "t:consumer"]),
         ("package test:doc;\nlet s = new t:shaped0 { ... };\nexport s.z-first;\n", vec!["t:shaped0"]),
+        // a `use` chain through five interfaces (used-type provenance must survive decoding for the re-encoding to work)
+        ("package test:doc;\nlet c = new t:chain { ... };\nexport c.go;\n", vec!["t:chain"]),
     ];
     for (di, (src, deps)) in docs.iter().enumerate() {
         let doc = Document::parse(src).unwrap();
